@@ -105,6 +105,14 @@ use crate::rng::copy_randombytes;
 use crate::types::*;
 use crate::utils::{increment_bytes, pad16, xor_buf};
 
+/// Largest message the underlying ChaCha20 implementation can encrypt after the
+/// two key stream blocks used for the MAC key and the tag: it hands out at most
+/// 2^32 - 1 blocks per (key, nonce), one fewer than libsodium, and fails beyond
+/// that. Longer messages are rejected up front rather than left to panic when
+/// the key stream is applied.
+const KEYSTREAM_MESSAGEBYTES_MAX: usize =
+    CRYPTO_SECRETSTREAM_XCHACHA20POLY1305_MESSAGEBYTES_MAX - 64;
+
 /// A secret for authenticated secret streams.
 pub type Key = [u8; CRYPTO_SECRETSTREAM_XCHACHA20POLY1305_KEYBYTES];
 /// A nonce for authenticated secret streams.
@@ -293,11 +301,11 @@ pub fn crypto_secretstream_xchacha20poly1305_push(
         )));
     }
 
-    if message.len() > CRYPTO_SECRETSTREAM_XCHACHA20POLY1305_MESSAGEBYTES_MAX {
+    if message.len() > KEYSTREAM_MESSAGEBYTES_MAX {
         return Err(dryoc_error!(format!(
             "Message length {} exceeds max length {}",
             message.len(),
-            CRYPTO_SECRETSTREAM_XCHACHA20POLY1305_MESSAGEBYTES_MAX
+            KEYSTREAM_MESSAGEBYTES_MAX
         )));
     }
 
@@ -406,11 +414,12 @@ pub fn crypto_secretstream_xchacha20poly1305_pull(
         )));
     }
 
-    if ciphertext.len() > CRYPTO_SECRETSTREAM_XCHACHA20POLY1305_MESSAGEBYTES_MAX {
+    if ciphertext.len() - CRYPTO_SECRETSTREAM_XCHACHA20POLY1305_ABYTES > KEYSTREAM_MESSAGEBYTES_MAX
+    {
         return Err(dryoc_error!(format!(
             "Message length {} exceeds max length {}",
-            ciphertext.len(),
-            CRYPTO_SECRETSTREAM_XCHACHA20POLY1305_MESSAGEBYTES_MAX
+            ciphertext.len() - CRYPTO_SECRETSTREAM_XCHACHA20POLY1305_ABYTES,
+            KEYSTREAM_MESSAGEBYTES_MAX
         )));
     }
 
